@@ -81,8 +81,37 @@ def user_name(uid):
         return "undefined"
 
 
-def e2e_requests(rng, n):
-    """n raw requests: the exempt uploads, letter-case variants of them, near misses, ordinary reads"""
+SCHEME = "Azure-HMAC-SHA256"
+
+
+def spoof_headers(rng, guid, well_shaped):
+    """client-supplied copies of the headers the proxy owns; well_shaped: an authorization header of the
+    proxy's own shape naming the CURRENT key guid (the guid is not a secret: it travels on every signed request)"""
+    sig = "".join(rng.choice("0123456789abcdef") for _ in range(64))
+    hs = []
+    if well_shaped:
+        g = rng.choice([guid, guid.upper(), guid])
+        hs.append(("x-ms-azure-host-authorization", "%s %s %s" % (SCHEME, g, rng.choice([sig, sig.upper(), "x"]))))
+    else:
+        r = rng.random()
+        if r < 0.35:
+            hs.append(("x-ms-azure-host-authorization", "%s %s %s" % (SCHEME, "0f0f0f0f-1111-2222-3333-444444444444", sig)))
+        elif r < 0.55:
+            hs.append(("x-ms-azure-host-authorization", "%s %s" % (SCHEME, guid)))
+        elif r < 0.7:
+            hs.append(("X-MS-AZURE-HOST-AUTHORIZATION", "%s %s %s" % (SCHEME.lower(), guid, sig)))
+    if rng.random() < 0.5:
+        hs.append(("x-ms-azure-host-claims", '{ "isRoot": "true"}'))
+    if rng.random() < 0.3:
+        hs.append(("x-ms-azure-host-date", "Thu, 01 Oct 2026 00:00:00 GMT"))
+    rng.shuffle(hs)
+    return hs
+
+
+def e2e_requests(rng, n, guid=None):
+    """n raw requests: the exempt uploads, letter-case variants of them, near misses, ordinary reads;
+    with guid (a key is latched): the 1st and 4th carry a well-shaped authorization header naming that key,
+    the others sometimes carry other client-supplied proxy-owned headers"""
     pool = []
     for method, url in exempt_pairs():
         body = b"2026-10-01T00:00:00Z line\n" * 3 if method == "PUT" else b"<?xml version=\"1.0\"?><TelemetryData/>"
@@ -102,7 +131,10 @@ def e2e_requests(rng, n):
     for i in range(n):
         # an exempt upload first and again right after the rule change (3rd request); the rest at random
         m, t, b = rng.choice(ex_pool) if i in (0, 2) else rng.choice(pool)
-        out.append({"method": m, "target": t, "raw": e2e.http_request(m, t, [("x-ms-version", "2012-11-30")], b)})
+        hs = [("x-ms-version", "2012-11-30")]
+        if guid is not None and (i in (0, 3) or rng.random() < 0.5):
+            hs += spoof_headers(rng, guid, i in (0, 3))
+        out.append({"method": m, "target": t, "headers": hs[1:], "raw": e2e.http_request(m, t, hs, b)})
     return out
 
 
@@ -127,10 +159,16 @@ def e2e_half(ctx, rng):
 
     scs, meta = [], []
 
+    GUID = "6d3b1c1e-7f2a-4c55-9d0e-2b1f8a7c4e10"
+    n_added = [0]
+
     def add(label, record, endpoint, name, port, item, item2, refused=True, kill=None):
         """kill: None | "before" (the key-keeper state task is dead before the connection is made) |
-        "between" (it dies after the 2nd request, on the open connection)"""
-        reqs = e2e_requests(rng, 5)
+        "between" (it dies after the 2nd request, on the open connection).  Every other scenario runs with a
+        latched key, and its requests carry client-supplied copies of the proxy-owned headers."""
+        n_added[0] += 1
+        keyed = n_added[0] % 2 == 0
+        reqs = e2e_requests(rng, 5, GUID if keyed else None)
         raws = []
         for j, r in enumerate(reqs):
             if j == 1 and kill == "between":
@@ -146,13 +184,27 @@ def e2e_half(ctx, rng):
         if kill == "before":
             knobs["ops_before"] = [{"op": "kill_actor", "actor": "key_keeper"}]
         rules = {endpoint: item} if item is not None else None
-        scs.append(e2e.scenario("%s rules=%s then %s" % (label, item and (item["mode"], item["defaultAccess"]),
-                                                         ("key keeper killed " + kill) if kill else
-                                                         item2 and (item2["mode"], item2["defaultAccess"])),
-                                [e2e.conn(raws, audit=record)], rules=rules, **knobs))
-        meta.append({"label": label, "record": record, "endpoint": endpoint, "rules": item,
+        key = {"guid": GUID, "key": "5a" * 32} if keyed else None
+        scs.append(e2e.scenario("%s rules=%s then %s%s" % (label, item and (item["mode"], item["defaultAccess"]),
+                                                           ("key keeper killed " + kill) if kill else
+                                                           item2 and (item2["mode"], item2["defaultAccess"]),
+                                                           " [key latched, client-supplied proxy headers]" if keyed else ""),
+                                [e2e.conn(raws, audit=record)], rules=rules, key=key, **knobs))
+        meta.append({"kind": "single", "label": label, "record": record, "endpoint": endpoint, "rules": item,
                      "rules_after_2nd_request": None if kill else item2, "key_keeper_killed": kill,
-                     "requests": [(r["method"], r["target"]) for r in reqs], "refused": refused})
+                     "latched_key_guid": GUID if keyed else None,
+                     "requests": [(r["method"], r["target"]) for r in reqs],
+                     "client_supplied_headers": [r["headers"] for r in reqs], "refused": refused})
+
+    def add_seq(dest, endpoint, item, order):
+        """connections in turn over ONE rule set, same uid and same process (so the same user, groups and
+        executable), only the elevation flag of the record differs; all ask for the same requests"""
+        reqs = e2e_requests(rng, 3)
+        conns = [e2e.conn([e2e.req(r["raw"]) for r in reqs], audit=e2e.audit(dest, uid=0, is_admin=1 if el else 0)) for el in order]
+        scs.append(e2e.scenario("sequence over one rule set at %s: elevated=%s rules=%s" % (dest, order, (item["mode"], item["defaultAccess"])),
+                                conns, rules={endpoint: item}))
+        meta.append({"kind": "sequence", "label": "uid0 elevated/not elevated in turn->%s" % dest, "dest": dest, "endpoint": endpoint,
+                     "rules": item, "elevated_per_connection": order, "requests": [(r["method"], r["target"]) for r in reqs]})
 
     for label, record, endpoint, name, port in callers:
         add(label, record, endpoint, name, port, None, grant(name, "disabled", "allow"))
@@ -171,6 +223,11 @@ def e2e_half(ctx, rng):
         for kill in ("before", "between"):
             add(label, record, endpoint, name, port,
                 rng.choice([None, grant(name, rng.choice(modes), rng.choice(defaults))]), None, kill=kill)
+    # the same caller elevated and not elevated in turn, same requests, one rule set
+    for dest, endpoint in ((e2e.WIRESERVER, "wireserver"), (e2e.HOSTGA, "hostga")):
+        for mode in ("disabled", "audit", "enforce"):
+            for order in ([True, False], [True, False, True, False], [False, True, False]):
+                add_seq(dest, endpoint, grant(root, mode, rng.choice(defaults)), order)
     # controls: the same requests from an elevated caller ARE relayed (the harness can see a relay)
     for dest, endpoint in ((e2e.WIRESERVER, "wireserver"), (e2e.HOSTGA, "hostga")):
         for mode in ("disabled", "audit", "enforce"):
@@ -181,11 +238,34 @@ def e2e_half(ctx, rng):
     failures, disagreements = [], []
     stats = {"scenarios": len(scs), "requests": 0, "refused_403": 0, "exempt_requests_refused": 0,
              "control_requests_relayed": 0, "self_destination_requests": 0,
-             "refused_500_key_keeper_dead": 0, "scenarios_key_keeper_killed": 0}
+             "refused_500_key_keeper_dead": 0, "scenarios_key_keeper_killed": 0,
+             "scenarios_with_latched_key_and_client_proxy_headers": 0, "requests_with_well_shaped_authorization_header_refused": 0,
+             "sequence_scenarios": 0, "sequence_requests_refused": 0}
     exempt = {(m, u.lower()) for m, u in exempt_pairs()}
     for sc, mt, r in zip(scs, meta, results):
         if not r.get("ok") or r.get("panics"):
             raise RuntimeError("e2e scenario %r did not run: %s %s" % (sc["name"], r.get("error"), r.get("panics")))
+        if mt["kind"] == "sequence":
+            sts = e2e.statuses(r)
+            stats["requests"] += sum(len(x) for x in sts)
+            stats["sequence_scenarios"] += 1
+            n_el = sum(1 for el in mt["elevated_per_connection"] if el)
+            seen = sum(len(c["requests"]) for c in r["upstream"].get(mt["dest"], []))
+            elsewhere = sum(c["nbytes"] for h, v in r["upstream"].items() if h != mt["dest"] for c in v)
+            case = {"scenario": mt, "statuses": sts, "requests_seen_by_the_mock_host": seen, "e2e_scenario": sc}
+            for el, st in zip(mt["elevated_per_connection"], sts):
+                if not el:
+                    stats["sequence_requests_refused"] += sum(1 for s in st if s == 403)
+            bad = [(ci, q, s) for ci, (el, st) in enumerate(zip(mt["elevated_per_connection"], sts)) if not el
+                   for q, s in zip(mt["requests"], st + [None] * (len(mt["requests"]) - len(st))) if s != 403]
+            if bad or seen > n_el * len(mt["requests"]) or elsewhere:
+                ci, (m, t), s = bad[0] if bad else (None, mt["requests"][0], None)
+                failures.append({"case": case, "impl": {"statuses": sts, "requests_at_host": seen},
+                                 "why": "end to end (%s, rules %s): connections elevated=%s made in turn by the same user and process; on connection %s the NON-elevated %s %s answered %s, and the mock host saw %d requests where the %d elevated connection(s) account for %d; a request of a non-elevated caller must be refused with 403 whatever was decided before" % (
+                                     mt["label"], mt["rules"]["mode"], mt["elevated_per_connection"], ci, m, t, s, seen, n_el, n_el * len(mt["requests"]))})
+            elif any(s != 200 for el, st in zip(mt["elevated_per_connection"], sts) if el for s in st):
+                disagreements.append({"case": case, "model": "every request of the elevated, granted caller is relayed (200)", "impl": sts})
+            continue
         st = e2e.statuses(r)[0]
         nbytes = {h: sum(c["nbytes"] for c in v) for h, v in r["upstream"].items()}
         case = {"scenario": mt, "statuses": st, "upstream_bytes": nbytes, "e2e_scenario": sc,
@@ -204,10 +284,19 @@ def e2e_half(ctx, rng):
             stats["refused_403"] += sum(1 for s in st if s == 403)
             stats["refused_500_key_keeper_dead"] += sum(1 for s in st if s == 500)
             stats["scenarios_key_keeper_killed"] += mt["key_keeper_killed"] is not None
+            if mt["latched_key_guid"]:
+                stats["scenarios_with_latched_key_and_client_proxy_headers"] += 1
+                stats["requests_with_well_shaped_authorization_header_refused"] += sum(
+                    1 for hs, s in zip(mt["client_supplied_headers"], st)
+                    if s in (403, 500) and any(k.lower() == "x-ms-azure-host-authorization" and v.lower().startswith(
+                        SCHEME.lower() + " " + mt["latched_key_guid"] + " ") for k, v in hs))
             stats["exempt_requests_refused"] += sum(1 for q, s in zip(mt["requests"], st)
                                                     if s == 403 and (q[0], q[1].lower()) in exempt)
             if bad or any(nbytes.values()):
                 (m, t), s = bad[0] if bad else (mt["requests"][0], "403")
+                hs = mt["client_supplied_headers"][mt["requests"].index((m, t))]
+                if hs:
+                    t = "%s [client-supplied headers %s%s]" % (t, hs, ", current key guid %s" % mt["latched_key_guid"] if mt["latched_key_guid"] else "")
                 failures.append({"case": case, "impl": {"statuses": st, "upstream_bytes": nbytes},
                                  "why": "end to end (%s): %s %s answered %s and %d bytes reached the mock hosts; a request of this caller must be refused (403; 500 when the rules lookup fails) and not one byte relayed (rules %s, after the 2nd request %s)" % (
                                      mt["label"], m, t, s, sum(nbytes.values()),
@@ -315,6 +404,17 @@ def run(ctx):
                     groups.append((granting_doc(rng, c, mode, default),
                                    [{"ip": dest[0], "port": dest[1], "claims": c, "url": u} for u in ("/", "/machine?comp=goalstate")]))
             groups.append((None, [{"ip": dest[0], "port": dest[1], "claims": c, "url": "/"}]))
+    # request SEQUENCES over one rule set: the same caller (user, groups, process) elevated and not elevated,
+    # asking for the same urls in turn -- the decision for one request must not leak into the next
+    for dest in (WIRESERVER, HOSTGA, IMDS, SELF):
+        for mode in ("disabled", "audit", "enforce"):
+            for default in ("allow", "deny"):
+                base = G.gen_claims_for(rng, {"rules": None}, elevated=True)
+                doc = granting_doc(rng, base, mode, default)
+                urls = ["/machine?comp=goalstate", G.gen_url_for(rng, doc)]
+                order = rng.choice([[True, False, True, False], [True, True, False, False], [False, True, False, True]])
+                groups.append((doc, [{"ip": dest[0], "port": dest[1], "claims": dict(base, el=el), "url": u}
+                                     for u in urls for el in order]))
 
     # ---------------- implementation ----------------
     lines = []
@@ -352,7 +452,7 @@ def run(ctx):
             "non_elevated_ws_ga_with_rules_that_would_allow": 0}
     samples = []
     for (doc, cases), o, mo in zip(groups, out, model):
-        for k, res, kind, m in zip(cases, o["res"], o["kinds"], mo):
+        for ci, (k, res, kind, m) in enumerate(zip(cases, o["res"], o["kinds"], mo)):
             total += 1
             case = {"ip": k["ip"], "port": k["port"], "claims": dict(k["claims"], p=k["claims"]["p"].hex(), e=k["claims"]["e"].hex()),
                     "url": k["url"], "doc": doc}
@@ -377,10 +477,14 @@ def run(ctx):
                                       "impl": {"kind": ik, "result": res}})
             why = prop_check(dict(case, claims=k["claims"]), res)
             if why:
-                failures.append({"case": case, "why": why, "impl": res,
+                # the cases of a group are decided in order over ONE rule set: the replay is the sequence up to here
+                seq = [dict(G.claims_to_req(x["claims"], x["url"]), ip=x["ip"], port=x["port"]) for x in cases[:ci + 1]]
+                if ci and mfixed == "forbidden":
+                    why += " -- as request %d of a sequence over one rule set (the same request alone is refused by the model; earlier requests: %s)" % (
+                        ci + 1, ", ".join("%s elevated=%s" % (x["url"], x["claims"]["el"]) for x in cases[:ci]))
+                failures.append({"case": dict(case, sequence=seq), "why": why, "impl": res,
                                  "replay": "echo '%s' | .target/debug/c03" % json.dumps(
-                                     {"doc": None if doc is None else G.doc_to_json(doc),
-                                      "cases": [dict(G.claims_to_req(k["claims"], k["url"]), ip=k["ip"], port=k["port"])]})})
+                                     {"doc": None if doc is None else G.doc_to_json(doc), "cases": seq})})
             if len(samples) < 3 and doc is not None and total % 97 == 1:
                 samples.append({"case": case, "impl": {"kind": ik, "result": res}, "model": {"kind": mk, "result": mfixed}})
     # elevation bit
@@ -405,7 +509,7 @@ def run(ctx):
         "evaluations": total,
         "distinct_nontrivial": len({(json.dumps(doc, sort_keys=True), k["ip"], k["port"], k["claims"]["el"], k["url"]) for doc, cases in groups for k in cases}),
         "traces_validated_against_impl": total - len(disagreements),
-        "rule": "authorize() on (destination, claims, URL, rule set) tuples: %d generated rule documents (C02 generator incl. malformed / absent) x %d requests, destinations drawn from the four endpoints and 13 near misses, elevated 45%%; plus the full product 17 destinations x elevated x {disabled,audit,enforce,unknown} x {allow,deny} with a rule set that grants the caller by name, and rules absent; plus from_audit_entry on 9 is_admin values; plus end-to-end scenarios (7 caller/destination shapes x rules absent + 5 modes, generated documents, 5 keep-alive requests each incl. the signature-exempt uploads and case variants, set_rules after the 2nd request, 14 scenarios with the key-keeper state task killed before / between requests, 6 relayed controls); distinct = distinct (document, destination, elevated, URL)" % (n_docs, per_doc),
+        "rule": "authorize() on (destination, claims, URL, rule set) tuples: %d generated rule documents (C02 generator incl. malformed / absent) x %d requests, destinations drawn from the four endpoints and 13 near misses, elevated 45%%; plus the full product 17 destinations x elevated x {disabled,audit,enforce,unknown} x {allow,deny} with a rule set that grants the caller by name, and rules absent; plus from_audit_entry on 9 is_admin values; plus end-to-end scenarios (7 caller/destination shapes x rules absent + 5 modes, generated documents, 5 keep-alive requests each incl. the signature-exempt uploads and case variants, set_rules after the 2nd request, every other scenario with a latched key and client-supplied copies of the proxy-owned headers incl. a well-shaped authorization header naming the current key guid, 14 scenarios with the key-keeper state task killed before / between requests, 18 sequences of elevated / non-elevated connections of one user and process over one rule set, 6 relayed controls); distinct = distinct (document, destination, elevated, URL)" % (n_docs, per_doc),
         "exhaustive": False,
         "samples": samples,
         "input_distribution": dict(dist, end_to_end=e2e_stats, real_service_self_destination=svc_stats),
